@@ -6,10 +6,13 @@ package engines
 // property predicates are evaluated directly on what readers return.
 
 import (
+	"encoding/json"
 	"fmt"
 	"math/rand"
 	"os"
+	"os/exec"
 	"path/filepath"
+	"strings"
 	"sync"
 	"time"
 
@@ -22,6 +25,7 @@ func init() {
 	Registry["index-c04"] = func(o Opts) error { return runIndex(o, "c04") }
 	Registry["index-c05"] = func(o Opts) error { return runIndex(o, "c05") }
 	Registry["index-c06"] = func(o Opts) error { return runIndex(o, "c06") }
+	Registry["index-c04child"] = runIndexChild
 }
 
 func workDir(name string) string {
@@ -179,9 +183,17 @@ func runIndex(o Opts, mode string) error {
 			wo.DirKind = "sim"
 			wo.Path = ""
 		}
-		w := NewWorld(wo, rand.New(rand.NewSource(rng.Int63())))
+		worldSeed := rng.Int63()
 		desc := map[string]interface{}{"scenario": s, "mode": mode, "dir": wo.DirKind, "unsafe": wo.Unsafe, "segver": wo.SegVersion,
 			"merges": wo.Merges, "universe": wo.Universe, "seed": o.Seed}
+		if mode == "c04" && wo.DirKind == "fs" {
+			// readers over memory-mapped files: a reference-count bug unmaps memory a reader still uses and
+			// kills the process, so these scenarios run in a child
+			indexChild(cw, o, wo, worldSeed, rng.Int63(), desc)
+			os.RemoveAll(wo.Path)
+			continue
+		}
+		w := NewWorld(wo, rand.New(rand.NewSource(worldSeed)))
 		var err error
 		fin, pan := cq.Guard(120*time.Second, func() {
 			switch mode {
@@ -583,4 +595,107 @@ func dupProbe(cw *cq.Writer, rng *rand.Rand) {
 	}
 	trace, _, _ := w.TraceEvents()
 	cw.Add(trace, "c01-dup-probe", true, desc)
+}
+
+// ---- C04 scenarios on the real file-system directory, in a child process ----
+
+type indexChildSpec struct {
+	W         WorldOpts
+	WorldSeed int64
+	ScenSeed  int64
+	Desc      map[string]interface{}
+}
+
+func runIndexChild(o Opts) error {
+	if len(o.Args) < 1 {
+		return fmt.Errorf("usage: index-c04child -out DIR <spec.json>")
+	}
+	var spec indexChildSpec
+	b, err := os.ReadFile(o.Args[0])
+	if err != nil {
+		return err
+	}
+	if err := json.Unmarshal(b, &spec); err != nil {
+		return err
+	}
+	cw := cq.New(o.Out, "", "unit", 1000)
+	w := NewWorld(spec.W, rand.New(rand.NewSource(spec.WorldSeed)))
+	rng := rand.New(rand.NewSource(spec.ScenSeed))
+	var serr error
+	fin, pan := cq.Guard(120*time.Second, func() { serr = scenarioHeldReaders(cw, w, rng, spec.Desc) })
+	if !fin {
+		cw.Abort("scenario-hang", "held-reader scenario did not finish within 120s", spec.Desc)
+	}
+	if pan != nil {
+		cw.OracleFail("held-reader-fault", fmt.Sprint(pan), spec.Desc)
+	} else if serr != nil {
+		cw.OracleFail("scenario-error", serr.Error(), spec.Desc)
+	} else {
+		_, _, order := w.TraceEvents()
+		prefixAt, _ := prefixIndex(w)
+		for _, ob := range w.Observed {
+			checkObservation(cw, w, ob, spec.Desc, prefixAt, order, nil)
+		}
+	}
+	cw.Close()
+	return nil
+}
+
+func indexChild(cw *cq.Writer, o Opts, wo WorldOpts, worldSeed, scenSeed int64, desc map[string]interface{}) {
+	dir := workDir(fmt.Sprintf("c04child-%d-%v", o.Seed, desc["scenario"]))
+	defer os.RemoveAll(dir)
+	spec := indexChildSpec{W: wo, WorldSeed: worldSeed, ScenSeed: scenSeed, Desc: desc}
+	b, _ := json.Marshal(spec)
+	specFile := filepath.Join(dir, "spec.json")
+	os.WriteFile(specFile, b, 0o644)
+	cmd := exec.Command(os.Args[0], "index-c04child", "-out", filepath.Join(dir, "out"), specFile)
+	var out strings.Builder
+	cmd.Stdout = &out
+	cmd.Stderr = &out
+	done := make(chan error, 1)
+	if err := cmd.Start(); err != nil {
+		cw.Count("c04_child_setup_errors", 1)
+		return
+	}
+	go func() { done <- cmd.Wait() }()
+	var werr error
+	select {
+	case werr = <-done:
+	case <-time.After(180 * time.Second):
+		cmd.Process.Kill()
+		<-done
+		cw.OracleFail("held-reader-hang", "file-system held-reader scenario did not finish within 180s", desc)
+		return
+	}
+	cw.Count("c04_fs_child_runs", 1)
+	if werr != nil {
+		t := out.String()
+		if len(t) > 900 {
+			t = t[:900]
+		}
+		cw.OracleFail("held-reader-fault", fmt.Sprintf("the process using held readers over the file-system directory died: %v: %s", werr, t), desc)
+		return
+	}
+	if ob, err := os.ReadFile(filepath.Join(dir, "out", "oracle.jsonl")); err == nil {
+		for _, line := range strings.Split(string(ob), "\n") {
+			if strings.TrimSpace(line) == "" {
+				continue
+			}
+			var f struct {
+				Key, Reason string
+				Input       interface{}
+			}
+			if json.Unmarshal([]byte(line), &f) == nil {
+				cw.OracleFail(f.Key, f.Reason, f.Input)
+			}
+		}
+	}
+	if sb, err := os.ReadFile(filepath.Join(dir, "out", "stats.json")); err == nil {
+		var st struct {
+			OracleEvaluations int `json:"oracle_evaluations"`
+		}
+		if json.Unmarshal(sb, &st) == nil {
+			cw.OracleEval(st.OracleEvaluations)
+		}
+	}
 }
